@@ -89,6 +89,8 @@ RESOURCE = 'local.localhost'
 ADDR_REG = 'tcp://10.0.0.1:10001'
 ADDR_PUB = 'tcp://10.0.0.1:10002'
 ADDR_SUB = 'tcp://10.0.0.1:10003'
+SERVICE  = 'c10.svc'                       # a service tasks may name in td.services
+SVC_INFO = 'tcp://10.0.0.1:10009'
 
 NENV      = 'c10env'                      # the named environment tasks may ask for
 NENV_HOME = '/opt/c10env'
@@ -111,6 +113,14 @@ f="$C10_OUT/rc.$1.$r"
 rc=0
 [ -f "$f" ] && read rc < "$f"
 exit $rc
+'''
+
+_CTRL = '''#!/bin/sh
+# $RP_CTRL stand-in (radical-pilot-control): log the call and its arguments
+r="${RP_RANK:--1}"
+echo "ctrl $r" >> "$C10_OUT/cmd.log"
+echo "$*" >> "$C10_OUT/ctrl.$r"
+exit 0
 '''
 
 _EXE = '''#!/bin/sh
@@ -212,6 +222,7 @@ class World(object):
         _write(self.bin + '/c10_exe',    _EXE,    0o755)
         _write(self.bin + '/c10_exe_py', _EXE_PY, 0o755)
         _write(self.bin + '/c10_mpirun', _MPIRUN, 0o755)
+        _write(self.bin + '/c10_ctrl',   _CTRL,   0o755)
         _write(self.bin + '/sleep', '#!/bin/sh\nexec /usr/bin/sleep 0.01\n', 0o755)
         self._lm_of = dict()
         self._build(task_pre_exec)
@@ -234,7 +245,8 @@ class World(object):
         ex._session = s
         ex._log     = rpshim.NullLog()
         ex._prof    = _Prof()
-        ex._reg     = {'bridges.control_pubsub': {'addr_pub': ADDR_PUB, 'addr_sub': ADDR_SUB}}
+        ex._reg     = {'bridges.control_pubsub': {'addr_pub': ADDR_PUB, 'addr_sub': ADDR_SUB},
+                       'services.%s' % SERVICE: SVC_INFO}
         ex._to_watcher        = lambda: None
         ex.register_input     = lambda *a, **k: None
         ex.register_output    = lambda *a, **k: None
@@ -252,7 +264,7 @@ class World(object):
         with mock.patch.object(xbase.rpa.ResourceManager, 'create', return_value=_RM()), \
              mock.patch.object(xbase.os, 'getcwd', return_value=self.psbox), \
              mock.patch.object(xbase.ru, 'which',
-                               side_effect=lambda x: '/bin/true' if 'radical-pilot-control' in str(x)
+                               side_effect=lambda x: (self.bin + '/c10_ctrl') if 'radical-pilot-control' in str(x)
                                else real_which(x)), \
              mock.patch.dict(os.environ, {'TMPDIR': self.root + '/tmp'}):
             xbase.AgentExecutingComponent.initialize(ex)          # the real initialize()
@@ -322,8 +334,10 @@ class World(object):
              'post_launch'  : entries('post_launch', [g] * cfg['postl']),
              'ranks'        : n,
              'cores_per_rank': case.get('cpr', 1),
-             'gpus_per_rank': cfg['gpr'],
-             'gpu_type'     : rpc.CUDA if cfg['gpr'] else '',
+             'gpus_per_rank': cfg['gq'] / 4.0,
+             'gpu_type'     : cfg['gtype'],
+             'startup_timeout': 30 if cfg['sto'] else 0,
+             'services'     : [SERVICE] if cfg['svc'] else [],
              'threading_type': rpc.OpenMP if cfg['omp'] else '',
              'pre_exec_sync': bool(cfg['sync']),
              'name'         : case.get('name', '')}
@@ -339,10 +353,19 @@ class World(object):
         tdd = td.as_dict()
 
         sbox = (self.psbox if case.get('sbox', 'in') == 'in' else self.other) + '/' + uid
-        gpr  = int(cfg['gpr'])
+        # slots as the scheduler hands them on: whole GPUs are exclusive, shares of
+        # a GPU are packed on one GPU (ScriptOps!GpusOf), ids counted from gbase
+        gq, gbase = cfg['gq'], case.get('gbase', 0)
+
+        def gpus(r):
+            if gq >= 4:
+                return [{'index': gbase + r * (gq // 4) + j, 'occupation': 1.0} for j in range(gq // 4)]
+            if gq > 0:
+                return [{'index': gbase + (r * gq) // 4, 'occupation': gq / 4.0}]
+            return []
         slots = [Slot(cores=list(range(r * d['cores_per_rank'], (r + 1) * d['cores_per_rank'])),
-                      gpus=list(range(r * gpr, (r + 1) * gpr)),
-                      node_name='localhost', node_index=0).as_dict() for r in range(n)]
+                      gpus=gpus(r), node_name='localhost', node_index=0).as_dict()
+                 for r in range(n)]
         task = {'uid': uid, 'description': tdd, 'task_sandbox_path': sbox, 'slots': slots}
         if case.get('name'):
             task['name'] = case['name']
@@ -360,7 +383,7 @@ class World(object):
                            'RP_TASK_SANDBOX'       : sbox,
                            'RP_RANKS'              : str(n),
                            'RP_CORES_PER_RANK'     : str(d['cores_per_rank']),
-                           'RP_GPUS_PER_RANK'      : str(cfg['gpr']),
+                           'RP_GPUS_PER_RANK'      : str(cfg['gq'] / 4.0),
                            'RP_REGISTRY_ADDRESS'   : ADDR_REG,
                            'RP_CONTROL_PUB_ADDRESS': ADDR_PUB,
                            'RP_CONTROL_SUB_ADDRESS': ADDR_SUB},
@@ -374,6 +397,10 @@ class World(object):
         cfg.setdefault('err', cfg['out'])             # replay objects of earlier versions
         cfg.setdefault('nenv', False)
         cfg.setdefault('envk', ['fresh'] * len(cfg['env']))
+        if 'gq' not in cfg:
+            cfg['gq'], cfg['gtype'] = 4 * cfg.pop('gpr', 0), 'CUDA'
+        for k in ('sto', 'svc', 'cfgpre', 'prof'):
+            cfg.setdefault(k, False)
         uid  = case['uid']
         n    = cfg['ranks']
         task, want = self.task_for(case)
@@ -383,6 +410,10 @@ class World(object):
 
         self._lm_of[uid] = 'FORK' if cfg['lm'] == 'fork' else 'MPIRUN'
         gen_error = 'none'
+        # per-resource / per-session settings of this case (cases run one at a time)
+        self.ex.session.rcfg['task_pre_exec'] = \
+            ['%s/c10_cmd pre_exec.%d.g' % (self.bin, len(cfg['pre']) + 1)] if cfg['cfgpre'] else None
+        self.ex._prof.enabled = bool(cfg['prof'])
         try:
             Popen._handle_task(self.ex, task)                 # real code writes both scripts
         except Exception as e:                                # pylint: disable=broad-except
@@ -398,7 +429,8 @@ class World(object):
             env['C10_RC_%d' % r] = str(case['xrc'][r])
         for f in case['F']:
             es  = {'pre_exec': cfg['pre'], 'post_exec': cfg['post']}.get(f['sig'])
-            who = 'g' if es is None or es[f['i'] - 1]['k'] == 'g' else 'r%d' % f['r']
+            who = 'g' if es is None or f['i'] > len(es) or es[f['i'] - 1]['k'] == 'g' \
+                      else 'r%d' % f['r']
             _write('%s/rc.%s.%d.%s.%d' % (obs, f['sig'], f['i'], who, f['r']),
                    '%d\n' % case.get('fail_code', 1))
 
@@ -489,6 +521,16 @@ class World(object):
                 items.append({'clause': 'LauncherEnv', 'k': 'C10_LM_ENV',
                               'want': 'fork' if cfg['lm'] == 'fork' else 'mpirun',
                               'seen': s.decode('utf-8', 'replace') if s is not None else 'unset'})
+                s = envd.get('RP_INFO_' + SERVICE.replace('.', '_').upper())
+                items.append({'clause': 'ServiceInfo', 'k': 'RP_INFO',
+                              'want': SVC_INFO if cfg['svc'] else 'unset',
+                              'seen': s.decode('utf-8', 'replace') if s is not None else 'unset'})
+                s = envd.get('RP_PROF_TGT')
+                items.append({'clause': 'ProfTarget', 'k': 'RP_PROF_TGT',
+                              'want': os.path.realpath('%s/%s.prof' % (want['sbox'], case['uid']))
+                                      if cfg['prof'] else 'unset',
+                              'seen': os.path.realpath(s.decode('utf-8', 'replace'))
+                                      if s is not None else 'unset'})
                 s = envd.get('VIRTUAL_ENV')
                 items.append({'clause': 'NamedEnv', 'k': 'VIRTUAL_ENV',
                               'want': NENV_HOME if cfg.get('nenv') else 'unset',
@@ -504,6 +546,12 @@ class World(object):
                     ev['cvd'] = [-1]
                 ev['cvd_set'] = s is not None
                 events.append(ev)
+            elif cid == 'ctrl':
+                calls = (read('%s/ctrl.%d' % (obs, r), 'r') or '').splitlines()
+                k     = sum(1 for e in events if e['ev'] == 'Ctrl' and e['r'] == r)
+                events.append({'ev': 'Ctrl', 'r': r,
+                               'want': '%s task_startup_done uid=%s' % (SID, case['uid']),
+                               'seen': calls[k] if k < len(calls) else 'unreadable'})
             else:
                 parts = cid.split('.')
                 if len(parts) == 3 and parts[1].isdigit() and (parts[2] == 'g' or parts[2][1:].isdigit()):
@@ -537,7 +585,8 @@ class World(object):
         return {'uid': case['uid'], 'cfg': cfg, 'F': case['F'], 'xrc': list(case['xrc']),
                 'gen_error': gen_error, 'events': events,
                 'sbox': os.path.normpath(want['sbox']), 'names': want['names'],
-                'task_out': want['task_out'], 'task_err': want['task_err']}
+                'task_out': want['task_out'], 'task_err': want['task_err'],
+                'gbase': case.get('gbase', 0)}
 
 
 # ------------------------------------------------------------------------------
